@@ -618,10 +618,13 @@ def build_unit(name, template_text, sources, read_template=None):
                             and not re.search(r'const\s+%s\s*:\s*Duration\s*=\s*Duration::from_(millis|secs)\(\s*[0-9_]+\s*\)' % re.escape(it.name), src.item_text(it)):
                         continue
                     if not getattr(spec, 'force', False):
-                        mo_prev = re.search(r'(?<![A-Za-z0-9_])const\s+%s\s*:[^=]*=\s*([^;]*);' % re.escape(it.name), have)
+                        mo_prev = re.search(r'(?<![A-Za-z0-9_])const\s+%s\s*:' % re.escape(it.name), have)
                         if mo_prev:
+                            # same name already in the unit: it must be the same value (its initialiser text occurs in the
+                            # existing definition, which may have been rewritten by R0c)
                             mo_new = re.search(r'=\s*([^;]*);', src.item_text(it))
-                            if mo_new and norm(mo_new.group(1)) != norm(mo_prev.group(1)):
+                            seg = have[mo_prev.start():mo_prev.start() + 400]
+                            if mo_new and norm(mo_new.group(1)) not in norm(seg):
                                 raise ExtractError('constant %s of %s has another value than the same-named constant already in the unit'
                                                    % (it.name, spec.path))
                             continue
